@@ -348,6 +348,18 @@ def angle_case(draw, name, n=None):
             st.sampled_from([[0.0, 2 * PI], [-PI, PI], [-1.0, 1.0],
                              [-0.5, 0.5], [0.0, 1.0]])))
         full = True
+    elif _maybe(draw, 0.4):
+        # a fixed scale on bounds of the caller's choosing: the map is
+        # one-to-one whenever the range is not longer than 2 pi / scale;
+        # the interval may contain the branch cut of arctan2 or lie beyond
+        # the principal branch
+        period = 2 * PI / scale
+        lo = draw(st.one_of(
+            st.floats(-2.0, 2.0).map(lambda f: f * period),
+            st.sampled_from([0.0, -period / 2, period / 4, 2.0, 2.5])))
+        frac = draw(st.sampled_from([0.1, 0.25, 1 / PI, 0.5, 0.75, 0.9]))
+        b = [float(lo), float(lo + frac * period)]
+        full = False
     elif scale == 1.0:
         b = list(draw(st.sampled_from(
             [[0.0, 2 * PI], [-PI, PI], [0.0, PI], [-PI / 2, PI / 2]])))
